@@ -5,6 +5,7 @@ import (
 	"hash"
 	"io"
 	"math/rand/v2"
+	"syscall"
 
 	"github.com/ARM-software/golang-utils/utils/filesystem"
 )
@@ -20,11 +21,20 @@ var chunkStyles = []string{
 	"zero-sprinkled", // 512-byte chunks, a (0,nil) read on every 5th call (never twice in a row)
 	"bytes.Reader",   // uninstrumented standard readers (ok steps only)
 	"strings.Reader",
+	"bytes.Reader-after-header", // a seekable reader positioned behind a header which was read before: the content starts where it stands
+	"seek-refusing",             // a reader with a Seek method which always fails (a pipe, a socket)
 }
 
 var cycleSizes = []int{1, 7, 511, 512, 513, 32767, 32768, 32769}
 
-func isNativeStyle(s string) bool { return s == "bytes.Reader" || s == "strings.Reader" }
+func isNativeStyle(s string) bool {
+	return s == "bytes.Reader" || s == "strings.Reader" || s == "bytes.Reader-after-header" || s == "seek-refusing"
+}
+
+// noSeek delivers its bytes but refuses to seek, like the read end of a pipe.
+type noSeek struct{ io.Reader }
+
+func (noSeek) Seek(int64, int) (int64, error) { return 0, syscall.ESPIPE }
 
 type chunker struct {
 	style string
